@@ -214,7 +214,7 @@ const (
 )
 
 var openFlags = []int64{oRDWR | oCREATE, oRDWR | oCREATE, oWRONLY | oCREATE | oTRUNC, oRDWR | oCREATE | oEXCL,
-	oRDWR, oWRONLY | oTRUNC, oRDWR | oAPPEND, oRDONLY, oWRONLY | oAPPEND | oCREATE}
+	oRDWR, oWRONLY | oTRUNC, oRDWR | oAPPEND, oRDONLY, oWRONLY | oAPPEND | oCREATE, oRDONLY | oCREATE, oRDONLY | oCREATE | oEXCL}
 var perms = []int64{0o644, 0o600, 0o755, 0o777, 0o400}
 
 func payload(r *Rng) []byte {
